@@ -390,16 +390,39 @@ func c33Faithful(p *an.Prog, r *an.R) {
 			return seen
 		}
 		pv, fc := reach("preview"), reach("force")
+		// helpers of the package called (in both modes) from the entry point: the planning may live there
+		type inner struct {
+			f      *ssa.Function
+			pv, fc map[*ssa.BasicBlock]bool
+		}
+		inners := []inner{{sf, pv, fc}}
+		an.Instrs(sf, func(b *ssa.BasicBlock, in ssa.Instruction) {
+			c, ok := in.(ssa.CallInstruction)
+			if !ok || !(pv[b] && fc[b]) {
+				return
+			}
+			cf := c.Common().StaticCallee()
+			if cf == nil || cf.Pkg != sf.Pkg || len(cf.Blocks) == 0 {
+				return
+			}
+			entry := sf
+			sf = cf
+			ipv, ifc := reach("preview"), reach("force")
+			sf = entry
+			inners = append(inners, inner{cf, ipv, ifc})
+		})
 		for _, name := range spec.calls {
 			callee := p.Func(lsync, name)
 			found := false
-			an.Instrs(sf, func(b *ssa.BasicBlock, in ssa.Instruction) {
-				if c, ok := in.(ssa.CallInstruction); ok && callee != nil && an.StaticCallee(c) == callee {
-					found = true
-					r.Check(pv[b] && fc[b], "C33.R4", an.SSAName(sf)+"/planning-call-in-both-modes/"+name, in.Pos(), "the planning step runs in preview and in force mode alike",
-						"the planning step "+name+" runs in only one of the two modes: the preview announces a plan computed differently from the one -f executes")
-				}
-			})
+			for _, inr := range inners {
+				an.Instrs(inr.f, func(b *ssa.BasicBlock, in ssa.Instruction) {
+					if c, ok := in.(ssa.CallInstruction); ok && callee != nil && an.StaticCallee(c) == callee {
+						found = true
+						r.Check(inr.pv[b] && inr.fc[b], "C33.R4", an.SSAName(sf)+"/planning-call-in-both-modes/"+name, in.Pos(), "the planning step runs in preview and in force mode alike",
+							"the planning step "+name+" runs in only one of the two modes: the preview announces a plan computed differently from the one -f executes")
+					}
+				})
+			}
 			if !found {
 				r.Und("C33.R4", an.SSAName(sf)+"/planning-call-in-both-modes/"+name, sf.Pos(), "planning call not found")
 			}
